@@ -11,7 +11,11 @@ Helper lemmas for `StubGen.Theorems.C20` (TODO markers).
 * flushing (`…_flushed`) and `Keeps` (started with an empty pending set, ends with one) for every
   declaration-emitting function up to `createModuleString`;
 * `rendersEmptyM`: exactly the types the model renders as `""` (`typeStr_empty`), and the key sets
-  `resultKeysM`, `functionKeysM`, `attributeKeysM` built on it, with their relation to `Spec.*`;
+  `resultKeysM`, `functionKeysM`, `attributeKeysM` built on it, with their relation to `Spec.*`:
+  `rendersEmptyM = Spec.rendersEmpty` on `mk_tvNonempty` types (no type variable with an empty
+  converted name under unions / `Final`s), in particular on types without type variables;
+* `mk_createResultString_eq`: `createResultString` is `""` without any effect when the only result is
+  `None`, and `mk_resultStringBody` (all typed results rendered) otherwise;
 * marker-iff-feature for `createFunctionString`, `createAttribute`, `createClassString`, and the
   lemmas that the text after a marker block does not start with the marker prefix.
 
@@ -318,6 +322,9 @@ theorem addToImports_wp (env : Env) (q : String) (st : St) :
   · intro _; exact OnlyIO.refl st
   intro _
   refine ⟨?_, ?_⟩
+  · intro _; exact OnlyIO.refl st
+  intro _
+  refine ⟨?_, ?_⟩
   · intro _
     apply OnlyIO.ite
     · apply OnlyIO.imports
@@ -541,7 +548,11 @@ theorem typeStr_grows (env : Env) : (t : AType) → ∀ st,
         intro k; rw [hlen] at hge; simp [Spec.typeKeys, hge]
   | .namedSeq name q ts, st => by
     rw [typeStr, wp_bind]
-    refine wp_conseq (typeStrs_grows env ts st) ?_; intro types s1 ⟨h1, hlen⟩
+    refine wp_conseq (typeStrs_grows env ts st) ?_; intro types s0 ⟨h0, hlen⟩
+    rw [wp_bind]
+    refine wp_conseq (addToImports_grows env q s0) ?_; intro _ s1 hi
+    have h1 : Grows (Spec.typeKeysL ts) (Spec.mentionsInternalL ts) st s1 :=
+      (h0.trans hi).mono (by simp) (by simp)
     simp only [wp_bind, wp_addTodo, wp_ite, wp_pure]
     refine ⟨?_, ?_⟩
     · intro he
@@ -1015,7 +1026,9 @@ def classBody (env : Env) (fuel : Nat) (c : Class) (indent : String) : G String 
       | none => []
     let varianceInfo ← (if !c.typeParams.isEmpty || !ctorTypeVars.isEmpty then do
         let items ← typeParamStrings env c.typeParams
-        let generics := ctorTypeVars.foldl (fun acc tv => if acc.contains tv.name then acc else acc ++ [tv.name]) items
+        let generics := ctorTypeVars.foldl (fun acc tv =>
+          let n := escapeKeyword (convertName tv.name env.safe)
+          if acc.contains n then acc else acc ++ [n]) items
         modify fun s => { s with classGenerics := generics }
         pure (if generics.isEmpty then "" else "<" ++ joinWith ", " generics ++ ">")
       else pure "" : G String)
@@ -1219,7 +1232,8 @@ theorem finishUnion_eq_empty (rs : List String) (b : Bool) : finishUnion rs b = 
 mutual
 /-- the types the model renders as the empty string: unions all of whose members render empty
     (in particular the union without members), also under `Final`, and type variables whose
-    converted name is empty.  `Spec.rendersEmpty` only lists `union []` under `Final`s. -/
+    converted name is empty.  `Spec.rendersEmpty` is the same without the type variables
+    (`mk_rendersEmptyM_eq`). -/
 def rendersEmptyM (safe : Bool) : AType → Bool
   | .union ts => rendersEmptyML safe ts
   | .final t => rendersEmptyM safe t
@@ -1283,7 +1297,7 @@ theorem typeStr_empty (env : Env) : (t : AType) → ∀ st,
         have : name ≠ "" := by
           intro h; rw [h] at hc; simp at hc
         simp only [wp_bind, wp_get, wp_ite, wp_addTodo, wp_pure]
-        simp [rendersEmptyM, this]
+        simp [rendersEmptyM, escapeKeyword_eq_empty, this]
   | .final t, st => by
     rw [typeStr]
     exact wp_conseq (typeStr_empty env t st) fun _ _ h => by simpa [rendersEmptyM] using h
@@ -1311,6 +1325,8 @@ theorem typeStr_empty (env : Env) : (t : AType) → ∀ st,
   | .namedSeq name q ts, st => by
     rw [typeStr, wp_bind]
     refine wp_conseq (wp_true _ _) ?_; intro types s1 _
+    rw [wp_bind]
+    refine wp_conseq (wp_true _ _) ?_; intro _ s2 _
     simp only [wp_bind, wp_addTodo, wp_ite, wp_pure]
     simp [rendersEmptyM]
   | .unknown, st => by
@@ -1374,9 +1390,9 @@ theorem wp_and {α : Type} {x : G α} {Q R : α → St → Prop} {st : St} (h1 :
     wp x (fun a s => Q a s ∧ R a s) st :=
   fun a s h => ⟨h1 a s h, h2 a s h⟩
 
-/-- markers of the result types that are rendered -/
+/-- markers of the result types that are rendered: those of every typed result -/
 def resultTypeKeys (rs : List Result) : List String :=
-  (Spec.resultsBeforeNone rs).flatMap (fun r => match r.type with | some t => Spec.typeKeys t | none => [])
+  rs.flatMap (fun r => match r.type with | some t => Spec.typeKeys t | none => [])
 
 /-- all results are untyped or render as the empty string (in the model) -/
 def resultsAllEmptyM (safe : Bool) (rs : List Result) : Bool :=
@@ -1385,10 +1401,8 @@ def resultsAllEmptyM (safe : Bool) (rs : List Result) : Bool :=
 /-- `Spec.resultKeys` with the model's notion of an empty rendering (`rendersEmptyM`) in place of
     `Spec.rendersEmpty` -/
 def resultKeysM (safe : Bool) (rs : List Result) : List String :=
-  resultTypeKeys rs
-  ++ (if rs.any Spec.isNoneResult then []
-      else if resultsAllEmptyM safe rs then ["result without type"]
-      else [])
+  if Spec.onlyNoneResult rs then []
+  else resultTypeKeys rs ++ (if resultsAllEmptyM safe rs then ["result without type"] else [])
 
 def resultsInternal (rs : List Result) : Bool :=
   rs.any (fun r => match r.type with | some t => Spec.mentionsInternal t | none => false)
@@ -1398,107 +1412,90 @@ theorem isNoneResult_eq {r : Result} {t : AType} (h : r.type = some t) : Spec.is
   rw [h]
   cases t <;> rfl
 
+/-- the part of `createResultString` after the test for a lone `None` result (a copy of the model
+    text; tied to the model by `mk_createResultString_eq`) -/
+def mk_resultStringBody (env : Env) (results : List Result) : G String := do
+  match ← createResults env results with
+  | [] => do addTodo "result without type"; pure ""
+  | [r] => pure (" -> " ++ r)
+  | rs => pure (" -> (" ++ joinWith ", " rs ++ ")")
+
+theorem mk_createResultString_eq (env : Env) (rs : List Result) :
+    createResultString env rs =
+      if Spec.onlyNoneResult rs then pure "" else mk_resultStringBody env rs := by
+  match rs with
+  | [] => rfl
+  | [r] =>
+    obtain ⟨id, name, ty⟩ := r
+    cases ty with
+    | none => rfl
+    | some t => cases t <;> rfl
+  | _ :: _ :: _ => rfl
+
 theorem createResults_grows (env : Env) : (rs : List Result) → ∀ st,
-    wp (createResults env rs) (fun r st' =>
+    wp (createResults env rs) (fun l st' =>
       Grows (resultTypeKeys rs) (resultsInternal rs) st st' ∧
-      (r = none ↔ rs.any Spec.isNoneResult = true) ∧
-      (∀ l, r = some l → (l = [] ↔ resultsAllEmptyM env.safe rs = true))) st
+      (l = [] ↔ resultsAllEmptyM env.safe rs = true)) st
   | [], st => by
     rw [createResults, wp_pure]
-    refine ⟨(Grows.refl st).mono (by simp [resultTypeKeys, Spec.resultsBeforeNone]) (by simp), by simp, ?_⟩
-    intro l hl
-    cases hl
-    simp [resultsAllEmptyM]
+    exact ⟨(Grows.refl st).mono (by simp [resultTypeKeys]) (by simp), by simp [resultsAllEmptyM]⟩
   | r :: rs, st => by
     rw [createResults]
     split
     · rename_i hty
-      have hn : Spec.isNoneResult r = false := by simp [Spec.isNoneResult, hty]
-      refine wp_conseq (createResults_grows env rs st) ?_; intro res s1 ⟨h1, h2, h3⟩
-      refine ⟨h1.mono ?_ ?_, ?_, ?_⟩
-      · simp [resultTypeKeys, Spec.resultsBeforeNone, hn, hty]
+      refine wp_conseq (createResults_grows env rs st) ?_; intro res s1 ⟨h1, h2⟩
+      refine ⟨h1.mono ?_ ?_, ?_⟩
+      · simp [resultTypeKeys, hty]
       · simp [resultsInternal]; tauto
-      · simp [h2, hn]
-      · intro l hl
-        simp [h3 l hl, resultsAllEmptyM, hty]
+      · simp [h2, resultsAllEmptyM, hty]
     · rename_i t hty
-      have hn : Spec.isNoneResult r = isNoneNamed t := isNoneResult_eq hty
-      rw [wp_ite]
-      refine ⟨fun hnn => ?_, fun hnn => ?_⟩
-      · rw [wp_pure]
-        refine ⟨(Grows.refl st).mono ?_ (by simp), ?_, ?_⟩
-        · simp [resultTypeKeys, Spec.resultsBeforeNone, hn, hnn]
-        · simp [hn, hnn]
-        · intro l hl; cases hl
-      · rw [wp_bind]
-        refine wp_conseq (wp_and (typeStr_grows env t st) (typeStr_empty env t st)) ?_
-        intro ts s1 ⟨g1, e1⟩
-        rw [wp_bind]
-        refine wp_conseq (createResults_grows env rs s1) ?_; intro rest s2 ⟨g2, n2, a2⟩
-        rw [wp_pure]
-        have hnn' : isNoneNamed t = false := by simpa using hnn
-        refine ⟨(g1.trans g2).mono ?_ ?_, ?_, ?_⟩
-        · simp [resultTypeKeys, Spec.resultsBeforeNone, hn, hnn', hty]
-        · simp [resultsInternal, hty]
-        · simp [hn, hnn', ← n2]
-        · intro l hl
-          cases rest with
-          | none => simp at hl
-          | some l0 =>
-            simp only [Option.map_some, Option.some.injEq] at hl
-            have a2' := a2 l0 rfl
-            by_cases hts : ts = ""
-            · have : rendersEmptyM env.safe t = true := e1.1 hts
-              simp [hts] at hl
-              subst hl
-              simp [resultsAllEmptyM, hty, this, a2']
-            · have : rendersEmptyM env.safe t = false := by
-                cases hb : rendersEmptyM env.safe t with
-                | false => rfl
-                | true => exact absurd (e1.2 hb) hts
-              simp [hts] at hl
-              subst hl
-              simp [resultsAllEmptyM, hty, this]
+      rw [wp_bind]
+      refine wp_conseq (wp_and (typeStr_grows env t st) (typeStr_empty env t st)) ?_
+      intro ts s1 ⟨g1, e1⟩
+      rw [wp_bind]
+      refine wp_conseq (createResults_grows env rs s1) ?_; intro rest s2 ⟨g2, a2⟩
+      rw [wp_pure]
+      refine ⟨(g1.trans g2).mono ?_ ?_, ?_⟩
+      · simp [resultTypeKeys, hty]
+      · simp [resultsInternal, hty]
+      · by_cases hts : ts = ""
+        · have : rendersEmptyM env.safe t = true := e1.1 hts
+          simp [hts, resultsAllEmptyM, hty, this, a2]
+        · have : rendersEmptyM env.safe t = false := by
+            cases hb : rendersEmptyM env.safe t with
+            | false => rfl
+            | true => exact absurd (e1.2 hb) hts
+          simp [hts, resultsAllEmptyM, hty, this]
 
 theorem createResultString_grows (env : Env) (rs : List Result) (st : St) :
     wp (createResultString env rs)
       (fun _ st' => Grows (resultKeysM env.safe rs) (resultsInternal rs) st st') st := by
-  unfold createResultString
-  rw [wp_bind]
-  refine wp_conseq (createResults_grows env rs st) ?_; intro res s1 ⟨g, hn, ha⟩
-  split
+  rw [mk_createResultString_eq, wp_ite]
+  refine ⟨fun hn => ?_, fun hn => ?_⟩
   · rw [wp_pure]
-    have : rs.any Spec.isNoneResult = true := hn.1 rfl
-    exact g.mono (by simp [resultKeysM, this]) (by simp)
-  · simp only [wp_bind, wp_addTodo, wp_pure]
-    have h1 : rs.any Spec.isNoneResult = false := by
-      cases hb : rs.any Spec.isNoneResult with
-      | false => rfl
-      | true => have := hn.2 hb; simp at this
-    have h2 : resultsAllEmptyM env.safe rs = true := (ha [] rfl).1 rfl
-    exact (g.trans (Grows.addTodo (by decide) s1)).mono (by simp [resultKeysM, h1, h2]) (by simp)
-  · rename_i r0
-    rw [wp_pure]
-    have h1 : rs.any Spec.isNoneResult = false := by
-      cases hb : rs.any Spec.isNoneResult with
-      | false => rfl
-      | true => have := hn.2 hb; simp at this
-    have h2 : resultsAllEmptyM env.safe rs = false := by
-      cases hb : resultsAllEmptyM env.safe rs with
-      | false => rfl
-      | true => have := (ha [r0] rfl).2 hb; simp at this
-    exact g.mono (by simp [resultKeysM, h1, h2]) (by simp)
-  · rename_i l hne1 hne2
-    rw [wp_pure]
-    have h1 : rs.any Spec.isNoneResult = false := by
-      cases hb : rs.any Spec.isNoneResult with
-      | false => rfl
-      | true => have := hn.2 hb; simp at this
-    have h2 : resultsAllEmptyM env.safe rs = false := by
-      cases hb : resultsAllEmptyM env.safe rs with
-      | false => rfl
-      | true => have := (ha l rfl).2 hb; subst this; exact absurd rfl hne1
-    exact g.mono (by simp [resultKeysM, h1, h2]) (by simp)
+    exact (Grows.refl st).mono (by simp [resultKeysM, hn]) (by simp)
+  · have hn' : Spec.onlyNoneResult rs = false := by simpa using hn
+    unfold mk_resultStringBody
+    rw [wp_bind]
+    refine wp_conseq (createResults_grows env rs st) ?_; intro res s1 ⟨g, ha⟩
+    split
+    · simp only [wp_bind, wp_addTodo, wp_pure]
+      have h2 : resultsAllEmptyM env.safe rs = true := ha.1 rfl
+      exact (g.trans (Grows.addTodo (by decide) s1)).mono (by simp [resultKeysM, hn', h2]) (by simp)
+    · rename_i r0
+      rw [wp_pure]
+      have h2 : resultsAllEmptyM env.safe rs = false := by
+        cases hb : resultsAllEmptyM env.safe rs with
+        | false => rfl
+        | true => have := ha.2 hb; simp at this
+      exact g.mono (by simp [resultKeysM, hn', h2]) (by simp)
+    · rename_i l hne1 hne2
+      rw [wp_pure]
+      have h2 : resultsAllEmptyM env.safe rs = false := by
+        cases hb : resultsAllEmptyM env.safe rs with
+        | false => rfl
+        | true => exact absurd (ha.2 hb) hne1
+      exact g.mono (by simp [resultKeysM, hn', h2]) (by simp)
 
 /-- markers of the bound of a type variable -/
 def boundKeys (tv : TypeVar) : List String :=
@@ -1783,34 +1780,151 @@ theorem attributeRest_not_marker (env : Env) (a : Attribute) (inner attrType : S
 
 /-! ### relation to the specification's key sets -/
 
+mutual
 theorem rendersEmptyM_of_rendersEmpty (safe : Bool) : (t : AType) → Spec.rendersEmpty t = true →
     rendersEmptyM safe t = true
-  | .union [], _ => by simp [rendersEmptyM, rendersEmptyML]
-  | .union (_ :: _), h => by simp [Spec.rendersEmpty] at h
+  | .union ts, h => by
+    rw [Spec.rendersEmpty] at h
+    rw [rendersEmptyM]
+    exact mk_rendersEmptyML_of_allRenderEmpty safe ts h
   | .final t, h => by
     rw [rendersEmptyM]
     exact rendersEmptyM_of_rendersEmpty safe t (by simpa [Spec.rendersEmpty] using h)
   | .unknown, h | .named .., h | .namedSeq .., h | .enum _, h | .boundary .., h | .list _, h
   | .dict .., h | .callable .., h | .set _, h | .literal _, h | .tuple _, h | .typeVar _, h
   | .typeVarB .., h => by simp [Spec.rendersEmpty] at h
+theorem mk_rendersEmptyML_of_allRenderEmpty (safe : Bool) : (ts : List AType) →
+    Spec.allRenderEmpty ts = true → rendersEmptyML safe ts = true
+  | [], _ => by rw [rendersEmptyML]
+  | t :: ts, h => by
+    rw [Spec.allRenderEmpty] at h
+    simp only [Bool.and_eq_true] at h
+    rw [rendersEmptyML, rendersEmptyM_of_rendersEmpty safe t h.1,
+      mk_rendersEmptyML_of_allRenderEmpty safe ts h.2]
+    rfl
+end
+
+mutual
+/-- no type variable whose converted name is empty sits at a position from which an empty rendering
+    reaches the whole type, i.e. under unions and `Final`s only (every other constructor renders
+    non-empty whatever its arguments).  In particular true of every type in which no type variable
+    with an empty converted name occurs, and of every type without type variables. -/
+def mk_tvNonempty (safe : Bool) : AType → Bool
+  | .typeVar n => convertName n safe != ""
+  | .typeVarB n _ => convertName n safe != ""
+  | .union ts => mk_tvNonemptyL safe ts
+  | .final t => mk_tvNonempty safe t
+  | _ => true
+def mk_tvNonemptyL (safe : Bool) : List AType → Bool
+  | [] => true
+  | t :: ts => mk_tvNonempty safe t && mk_tvNonemptyL safe ts
+end
+
+mutual
+/-- the model's and the specification's notion of "renders empty" agree except for type variables
+    whose converted name is empty -/
+theorem mk_rendersEmptyM_eq (safe : Bool) : (t : AType) → mk_tvNonempty safe t = true →
+    rendersEmptyM safe t = Spec.rendersEmpty t
+  | .union ts, h => by
+    rw [mk_tvNonempty] at h
+    rw [rendersEmptyM, Spec.rendersEmpty]
+    exact mk_rendersEmptyML_eq safe ts h
+  | .final t, h => by
+    rw [mk_tvNonempty] at h
+    rw [rendersEmptyM, Spec.rendersEmpty]
+    exact mk_rendersEmptyM_eq safe t h
+  | .typeVar n, h => by
+    rw [mk_tvNonempty] at h
+    simpa [rendersEmptyM, Spec.rendersEmpty] using h
+  | .typeVarB n _, h => by
+    rw [mk_tvNonempty] at h
+    simpa [rendersEmptyM, Spec.rendersEmpty] using h
+  | .unknown, _ | .named .., _ | .namedSeq .., _ | .enum _, _ | .boundary .., _ | .list _, _
+  | .dict .., _ | .callable .., _ | .set _, _ | .literal _, _ | .tuple _, _ => by
+    simp [rendersEmptyM, Spec.rendersEmpty]
+theorem mk_rendersEmptyML_eq (safe : Bool) : (ts : List AType) → mk_tvNonemptyL safe ts = true →
+    rendersEmptyML safe ts = Spec.allRenderEmpty ts
+  | [], _ => by rw [rendersEmptyML, Spec.allRenderEmpty]
+  | t :: ts, h => by
+    rw [mk_tvNonemptyL] at h
+    simp only [Bool.and_eq_true] at h
+    rw [rendersEmptyML, Spec.allRenderEmpty, mk_rendersEmptyM_eq safe t h.1, mk_rendersEmptyML_eq safe ts h.2]
+end
+
+mutual
+/-- does a type variable occur in the type -/
+def mk_hasTypeVar : AType → Bool
+  | .typeVar _ => true
+  | .typeVarB .. => true
+  | .namedSeq _ _ ts => mk_hasTypeVarL ts
+  | .union ts => mk_hasTypeVarL ts
+  | .list ts => mk_hasTypeVarL ts
+  | .set ts => mk_hasTypeVarL ts
+  | .tuple ts => mk_hasTypeVarL ts
+  | .dict k v => mk_hasTypeVar k || mk_hasTypeVar v
+  | .callable ps r => mk_hasTypeVarL ps || mk_hasTypeVar r
+  | .final t => mk_hasTypeVar t
+  | _ => false
+def mk_hasTypeVarL : List AType → Bool
+  | [] => false
+  | t :: ts => mk_hasTypeVar t || mk_hasTypeVarL ts
+end
+
+mutual
+theorem mk_tvNonempty_of_noTypeVar (safe : Bool) : (t : AType) → mk_hasTypeVar t = false →
+    mk_tvNonempty safe t = true
+  | .union ts, h => by
+    rw [mk_hasTypeVar] at h
+    rw [mk_tvNonempty]
+    exact mk_tvNonemptyL_of_noTypeVar safe ts h
+  | .final t, h => by
+    rw [mk_hasTypeVar] at h
+    rw [mk_tvNonempty]
+    exact mk_tvNonempty_of_noTypeVar safe t h
+  | .typeVar n, h | .typeVarB n _, h => by simp [mk_hasTypeVar] at h
+  | .unknown, _ | .named .., _ | .namedSeq .., _ | .enum _, _ | .boundary .., _ | .list _, _
+  | .dict .., _ | .callable .., _ | .set _, _ | .literal _, _ | .tuple _, _ => by
+    simp [mk_tvNonempty]
+theorem mk_tvNonemptyL_of_noTypeVar (safe : Bool) : (ts : List AType) → mk_hasTypeVarL ts = false →
+    mk_tvNonemptyL safe ts = true
+  | [], _ => by rw [mk_tvNonemptyL]
+  | t :: ts, h => by
+    rw [mk_hasTypeVarL] at h
+    simp only [Bool.or_eq_false_iff] at h
+    rw [mk_tvNonemptyL, mk_tvNonempty_of_noTypeVar safe t h.1, mk_tvNonemptyL_of_noTypeVar safe ts h.2]
+    rfl
+end
+
+/-- `rendersEmptyM = Spec.rendersEmpty` on types without type variables -/
+theorem mk_rendersEmptyM_eq_of_noTypeVar (safe : Bool) (t : AType) (h : mk_hasTypeVar t = false) :
+    rendersEmptyM safe t = Spec.rendersEmpty t :=
+  mk_rendersEmptyM_eq safe t (mk_tvNonempty_of_noTypeVar safe t h)
 
 /-- the result types on which the specification's and the model's notion of "renders empty" agree -/
 def PlainResults (safe : Bool) (rs : List Result) : Prop :=
   ∀ r ∈ rs, ∀ t, r.type = some t → rendersEmptyM safe t = Spec.rendersEmpty t
 
+theorem mk_plainResults_of_tvNonempty {safe : Bool} {rs : List Result}
+    (h : ∀ r ∈ rs, ∀ t, r.type = some t → mk_tvNonempty safe t = true) : PlainResults safe rs :=
+  fun r hr t ht => mk_rendersEmptyM_eq safe t (h r hr t ht)
+
 theorem resultKeysM_eq {safe : Bool} {rs : List Result} (h : PlainResults safe rs) :
     resultKeysM safe rs = Spec.resultKeys rs := by
   unfold resultKeysM Spec.resultKeys resultTypeKeys
-  have : resultsAllEmptyM safe rs =
-      rs.all (fun r => match r.type with | none => true | some t => Spec.rendersEmpty t) := by
-    unfold resultsAllEmptyM
-    rw [Bool.eq_iff_iff, List.all_eq_true, List.all_eq_true]
-    refine forall_congr' fun r => forall_congr' fun hr => ?_
-    cases hty : r.type with
-    | none => rfl
-    | some t => simp only [h r hr t hty]
-  rw [this]
-  rfl
+  cases hn : Spec.onlyNoneResult rs with
+  | true => rfl
+  | false =>
+    have : resultsAllEmptyM safe rs = (Spec.shownResults rs).isEmpty := by
+      unfold resultsAllEmptyM Spec.shownResults
+      rw [hn]
+      simp only [Bool.false_eq_true, if_false]
+      rw [Bool.eq_iff_iff, List.all_eq_true, List.isEmpty_iff, List.filter_eq_nil_iff]
+      refine forall_congr' fun r => forall_congr' fun hr => ?_
+      cases hty : r.type with
+      | none => simp
+      | some t => simp [h r hr t hty]
+    rw [this]
+    rfl
 
 theorem functionKeysM_eq {safe : Bool} {f : Function} (isMethod : Bool) (shown : List TypeVar)
     (h : PlainResults safe f.results) :
@@ -1922,9 +2036,9 @@ theorem createInternalClassString_keeps_mk (env : Env) : (fuel : Nat) → ∀ sc
     exact Keeps.bind (internalSupersG_keeps_mk (fun ss => createInternalClassString_keeps_mk env fuel ss inner _) _)
       fun _ => Keeps.pure _
 
-/-- the superclass names that appear after `sub` -/
+/-- the superclass names that appear after `sub` (back-quoted when they are Safe-DS keywords) -/
 def publicSuperNames (scs : List String) : List String :=
-  (scs.map (fun sc => lastD "" (splitDot sc))).filter (fun n => !isInternal n)
+  ((scs.map (fun sc => lastD "" (splitDot sc))).filter (fun n => !isInternal n)).map escapeKeyword
 
 theorem superclassesG_spec (env : Env) {inline : String → G String} (h : ∀ s, Keeps (inline s)) :
     (scs : List String) → ∀ st, st.todos = [] →
